@@ -21,7 +21,8 @@ from harness.common import usbref as U
 from harness.translate import affine
 
 PROP = "C31"
-LEAN_MODULES = ["LunaVerif.Core.XorAlg", "LunaVerif.Props.C31", "LunaVerif.Props.C31Phy"]
+LEAN_MODULES = ["LunaVerif.Core.XorAlg", "LunaVerif.Props.C31", "LunaVerif.Props.C31Phy",
+                "LunaVerif.Lemmas.C31PhyRxStream", "LunaVerif.Props.C31PhyRx"]
 DRIVER = "Driver/C31.lean"
 TRANSLATORS = [affine.translate_lfsr]
 REQUIRED_THEOREMS = [
@@ -31,6 +32,10 @@ REQUIRED_THEOREMS = [
     "lfsr_position", "pair_step", "descramble_scramble_id", "lfsr_default_init_is_spec",
     # the transmit wiring of USB3PhysicalLayer (Props/C31Phy.lean)
     "hold_is_sending_skip", "pins_next_cycle", "reg_held_over_skp", "reg_moves_with_word", "phy_tx_descrambles",
+    # the receive wiring of USB3PhysicalLayer (Lemmas/C31PhyRxStream.lean, Props/C31PhyRx.lean)
+    "run_split", "aligner_fifoS", "descrambler_on_valid_words", "front_stream", "back_stream",
+    "phy_rx_descrambles", "phy_rx_descrambles_from_reset", "lock_on_com4", "phy_rx_descrambles_after_com4",
+    "tx_wire_is_refPass", "phy_rx_of_phy_tx",
 ]
 RULE = ("cases = module (ScramblerLFSR / Scrambler / Descrambler / Scrambler->Descrambler chain) x initial_value x "
         "stimulus; words mix data and control symbols, COM (K28.5) is placed in every symbol position, as a data "
